@@ -87,7 +87,7 @@ Proof.
   - apply wake_tasks in H. unfold outc. rewrite H. exact Ho.
   - destruct (g_fin st w); [|discriminate]. destruct (negb (g_ret st w) && wres_eqb (f_res f) r); [|discriminate].
     injection H as <-. exact Ho.
-  - destruct (g_run st r); [discriminate|]. injection H as <-. exact Ho.
+  - destruct (g_run st r); [discriminate|]. destruct (list_eqb Nat.eqb (map fst aws) actors); [|discriminate]. injection H as <-. exact Ho.
   - destruct (g_run st r) as [[ws pend]|]; [|discriminate].
     match type of H with (if ?b then _ else _) = _ => destruct b end; [|discriminate]. injection H as <-. exact Ho.
   - destruct (g_run st r) as [[ws [|]]|]; try discriminate. destruct (g_runret st r); [discriminate|].
@@ -265,7 +265,7 @@ Ltac crush_step H :=
 Lemma step_calls_ok c st t e st' : gstep c st t e = Some st' -> calls_ok st -> calls_ok st'.
 Proof.
   intros H HI. pose proof (step_mono _ _ _ _ _ H) as Hm.
-  destruct e as [a tid created|a tid|tid le|tid o|a targets|tid|a w|a w targets|w|w r|r ws|r done|r]; unfold gstep in H.
+  destruct e as [a tid created|a tid|tid le|tid o|a targets|tid|a w|a w targets|w|w r|r actors aws|r done|r]; unfold gstep in H.
   1,2,4,5,6,11,12,13: (eapply calls_ok_tasks_only; [exact Hm| | | |exact HI]; crush_step H; reflexivity).
   - (* GLoop *) eapply calls_ok_tasks_only; [exact Hm| | | |exact HI];
       destruct le; try discriminate; destruct (g_tasks st tid) as [[a s|]|]; try discriminate;
@@ -440,7 +440,7 @@ Proof.
       apply Hgoal; cbn; rewrite ?Er; reflexivity.
   - destruct (g_fin st w); [|discriminate]. destruct (negb (g_ret st w) && wres_eqb (f_res f) r); [|discriminate].
     injection H as <-. exact HI.
-  - destruct (g_run st r); [discriminate|]. injection H as <-. exact HI.
+  - destruct (g_run st r); [discriminate|]. destruct (list_eqb Nat.eqb (map fst aws) actors); [|discriminate]. injection H as <-. exact HI.
   - destruct (g_run st r) as [[ws pend]|]; [|discriminate].
     match type of H with (if ?b then _ else _) = _ => destruct b end; [|discriminate]. injection H as <-. exact HI.
   - destruct (g_run st r) as [[ws [|]]|]; try discriminate. destruct (g_runret st r); [discriminate|].
@@ -477,7 +477,7 @@ Proof.
                   (forall w, g_ret st w = true -> g_ret st' w = true) -> run_ok st').
   { intros Hr Hrr Hret. unfold run_ok. rewrite Hr, Hrr. split; [|exact H2].
     intros r ws pend Hrun w Hw. destruct (H1 r ws pend Hrun w Hw) as [Hp|Hp]; [left; exact Hp|right; apply Hret, Hp]. }
-  destruct e as [a tid created|a tid|tid le|tid o|a targets|tid|a w|a w targets|w|w r|r ws|r done|r]; unfold gstep in H.
+  destruct e as [a tid created|a tid|tid le|tid o|a targets|tid|a w|a w targets|w|w r|r actors aws|r done|r]; unfold gstep in H.
   1,2,4,5,6: (apply Hsame; crush_step H; try reflexivity; trivial).
   - (* GLoop *) apply Hsame;
       destruct le; try discriminate; destruct (g_tasks st tid) as [[a s|]|]; try discriminate;
@@ -496,7 +496,8 @@ Proof.
   - (* GRet *) destruct (g_fin st w) as [F|]; [|discriminate].
     destruct (negb (g_ret st w) && wres_eqb (f_res F) r); [|discriminate]. injection H as <-.
     apply Hsame; try reflexivity. cbn. intros w' Hw'. unfold updn. destruct (Nat.eqb w' w); [reflexivity|exact Hw'].
-  - (* GRunCall *) destruct (g_run st r) eqn:Er; [discriminate|]. injection H as <-. split; cbn.
+  - (* GRunCall *) destruct (g_run st r) eqn:Er; [discriminate|].
+    destruct (list_eqb Nat.eqb (map fst aws) actors); [|discriminate]. injection H as <-. split; cbn.
     + intros r' ws' pend. unfold updn. destruct (Nat.eqb_spec r' r) as [->|]; [|apply H1].
       intros Hr. injection Hr as <- <-. intros w Hw. left. exact Hw.
     + intros r' Hrr. unfold updn. destruct (Nat.eqb_spec r' r) as [->|]; [|apply H2, Hrr].
@@ -565,4 +566,20 @@ Proof.
       rewrite (Hall x (Hincl x Hx)), (proj2 (memn_In x (p :: pend)) Hx). reflexivity. }
     rewrite E. cbn [g_run set_run]. rewrite updn_same, removen_self. cbn [g_runret set_run]. rewrite Hrr.
     split; [reflexivity|]. cbn. apply updn_same.
+Qed.
+
+(* run() blocks on exactly one wait() call per actor it was given *)
+Lemma list_eqb_nat_eq a : forall b, list_eqb Nat.eqb a b = true -> a = b.
+Proof.
+  induction a as [|x a IH]; intros [|y b]; cbn; try discriminate; [reflexivity|].
+  intros H. apply andb_prop in H as [H1 H2]. apply Nat.eqb_eq in H1. apply IH in H2. congruence.
+Qed.
+
+Lemma run_waits_every_actor c st t r actors aws st' :
+  gstep c st t (GRunCall r actors aws) = Some st' ->
+  map fst aws = actors /\ g_run st' r = Some (map snd aws, map snd aws).
+Proof.
+  unfold gstep. destruct (g_run st r); [discriminate|].
+  destruct (list_eqb Nat.eqb (map fst aws) actors) eqn:E; [|discriminate]. intros H. injection H as <-.
+  split; [apply list_eqb_nat_eq, E|]. cbn. apply updn_same.
 Qed.
